@@ -207,6 +207,8 @@ struct World {
     sent_cookies: Vec<Vec<u8>>,
     // bookkeeping for the oracles
     meas_since_send: usize,
+    /// C12 bookkeeping: a v5 answer matching an outstanding v5 request was delivered (automatic-mode source)
+    v5_match_seen: bool,
     /// largest interval of a poll that was answered by a valid RATE (harness bookkeeping)
     rate_floor: Option<i8>,
     /// the last flag handed to the controller by set_usable
@@ -389,6 +391,7 @@ fn new_world(w: &[&str]) -> World {
         last_seal: None,
         sent_cookies: vec![],
         meas_since_send: 0,
+        v5_match_seen: false,
         rate_floor: None,
         last_usable_flag: None,
         junk_since_send: 0,
@@ -573,6 +576,13 @@ fn exec_timer(wd: &mut World, w: &[&str], run: &mut Run, prop: Prop, key: &mut S
             if poll < remote_before {
                 run.oracle_fail("rate_never_faster", &format!("poll={} remote_min={}", poll, remote_before), "request polls faster than the interval the server asked for");
             }
+        }
+        if prop == Prop::C12 && wd.v5_match_seen {
+            if s.version != 5 {
+                run.oracle_fail("c12_fallback_only_before_first_match", &format!("sent_version={} upg={}", s.version, s.upg as u8),
+                    "an automatic-mode source fell back to NTPv4 although a matching NTPv5 answer had already been received after the upgrade");
+            }
+            run.hit("c12-poll-after-v5-match");
         }
         if prop == Prop::C12 {
             let want: (u8, bool) = match (wd.nts, snap_before.protocol_version, wd.source.protocol_version) {
@@ -1076,6 +1086,16 @@ fn exec_incoming(wd: &mut World, w: &[&str], run: &mut Run, prop: Prop, key: &mu
         let nak_bound = wd.nts && is_nak && uid_in("uu") && uid_all("uu") && uid_all("ua") && uid_all("ue");
         let valid = rec.is_some() && org_match && (uid_bound || nak_bound) && within && version_ok;
         let marker = get("rts") == "4e54503544524654" && version == 4;
+        // harness bookkeeping for "falls back only if two polls are missed BEFORE the first matching NTPv5 answer": the
+        // outstanding request was an NTPv5 one and this datagram is a matching NTPv5 answer to it (client cookie, pending,
+        // within the window) — whatever its content (normal, KISS of any kind)
+        let automatic = matches!(wd.init_proto, ProtocolVersion::V4UpgradingToV5 { .. } | ProtocolVersion::UpgradedToV5);
+        if automatic && !wd.nts && valid && version == 5 && cur.as_ref().map(|c| c.version == 5).unwrap_or(false) {
+            if !wd.v5_match_seen {
+                run.hit(if stratum == 0 { "c12-first-v5-match-is-kiss" } else { "c12-first-v5-match-is-answer" });
+            }
+            wd.v5_match_seen = true;
+        }
         // "returns to plain NTPv4 after eight matching answers without [the marker]"
         if let ProtocolVersion::V4UpgradingToV5 { tries_left: n0 } = wd.init_proto {
             if valid && matches!(pb, ProtocolVersion::V4UpgradingToV5 { .. }) {
@@ -1728,6 +1748,40 @@ fn gen_script(rng: &mut Rng, prop: Prop) -> Vec<String> {
         Prop::C13 => *rng.pick(&[40u64, 80, 95, 100]),
         _ => *rng.pick(&[50u64, 80, 95]),
     };
+    if prop == Prop::C12 && !g.nts && g.proto.starts_with("up") && rng.chance(1, 4) {
+        // structured upgrade history: (marker answer ->) upgraded; the first matching NTPv5 answer is a KISS of some kind
+        // (or a normal answer, or there is none); then 2-4 polls without answer; then normal traffic
+        let des = g.min as i64;
+        if g.proto != "upd" {
+            ops.push(format!("timer dt=16000000000 des={}", des));
+            ops.push(format!("incoming dt=1000000 sts={:016x} rcv={:016x} d.v=4 d.org=match d.st=2 d.rid=2130706433 d.pl={} d.an=0 d.mode=4 d.rts=4e54503544524654 d.lp=0 d.rx={:016x} d.tx={:016x} d.rd=1 d.rdp=1 d.auth=none d.A=- d.E=- d.U=-",
+                rng.next_u64(), rng.next_u64(), des as i8 as u8, rng.next_u64(), rng.next_u64()));
+        }
+        ops.push(format!("timer dt=16000000000 des={}", des));
+        match rng.below(7) {
+            0 => {}                                                                 // no answer at all: fallback is right
+            1 => ops.push(format!("incoming dt=1000000 sts={:016x} rcv={:016x}{}", rng.next_u64(), rng.next_u64(), gen_clean_answer(rng, &g, prop))),
+            k => {
+                // matching v5 KISS: RATE (poll above ours), DENY (poll 127), NTS-NAK (authnak), unknown (stratum 0 only)
+                let (pl, an) = match k {
+                    2 | 3 => (20, 0),
+                    4 => (127, 0),
+                    5 => (0, 1),
+                    _ => (0, 0),
+                };
+                ops.push(format!("incoming dt=1000000 sts=0000000000000001 rcv=0000000000000002 d.v=5 d.org=match d.st=0 d.rid=0 d.pl={} d.an={} d.mode=4 d.lp=0 d.rx=0000000000000001 d.tx=0000000000000002 d.rd=1 d.rdp=1 d.auth=none d.A=- d.E=- d.U=draft", pl, an));
+            }
+        }
+        for _ in 0..rng.usize(2, 4) {
+            ops.push(format!("timer dt=16000000000 des={}", des));
+        }
+        let mut dummy = 0u64;
+        for _ in 0..rng.usize(0, 3) {
+            ops.push(format!("timer dt=16000000000 des={}", des));
+            ops.push(gen_incoming(rng, &g, prop, &mut dummy));
+        }
+        return ops;
+    }
     if prop == Prop::C33 && !g.nts && rng.chance(1, 6) {
         // 1-3 answered polls, then 7-10 polls without answer: the source must stop being usable exactly at the 8th
         let des = g.min as i64;
